@@ -2747,3 +2747,134 @@ func E3LineHeightsEverySpan(c *core.Ctx, r *core.Report) {
 	r.Count("E3.line-height-span-loops", n)
 	r.Floor("E3.line-height-span-loops", 2)
 }
+
+// emptyGuardSet evaluates the leading `if <cond> { return Rect{} }` of a Path method for paths of 0, 1, 2 and 3 four-value
+// records (len(p.d) = 0, 4, 8, 12; non-nil receiver) and returns the lengths for which the method returns the zero Rect.
+func emptyGuardSet(c *core.Ctx, p *packages.Package, fd *ast.FuncDecl) (set []int, cond ast.Expr, why string) {
+	info := p.TypesInfo
+	for _, st := range fd.Body.List {
+		is, ok := st.(*ast.IfStmt)
+		if !ok || is.Init != nil || len(is.Body.List) != 1 {
+			continue
+		}
+		rs, ok := is.Body.List[0].(*ast.ReturnStmt)
+		if !ok || len(rs.Results) != 1 {
+			continue
+		}
+		if cl, ok := core.Unparen(rs.Results[0]).(*ast.CompositeLit); !ok || len(cl.Elts) != 0 {
+			continue
+		}
+		cond = is.Cond
+		break
+	}
+	if cond == nil {
+		return nil, nil, "no leading `if … { return Rect{} }`"
+	}
+	var eval func(e ast.Expr, n int, depth int) tri
+	intVal := func(e ast.Expr, n int) (int, bool) {
+		e = core.Unparen(e)
+		if v, ok := core.ConstInt(info, e); ok {
+			return int(v), true
+		}
+		if arg, ok := cmdLenArg(info, e); ok {
+			if L, ok := recordLen[core.ConstName(info, arg)]; ok {
+				return L, true
+			}
+			return 0, false
+		}
+		if ce, ok := e.(*ast.CallExpr); ok && len(ce.Args) == 1 {
+			if id, ok := ce.Fun.(*ast.Ident); ok && id.Name == "len" && core.IsPathDataSel(info, ce.Args[0]) {
+				return n, true
+			}
+		}
+		return 0, false
+	}
+	eval = func(e ast.Expr, n int, depth int) tri {
+		return evalBool(info, e, func(a ast.Expr) tri {
+			switch x := a.(type) {
+			case *ast.BinaryExpr:
+				isNil := func(e ast.Expr) bool { tv, ok := info.Types[e]; return ok && tv.IsNil() }
+				if (x.Op == token.EQL || x.Op == token.NEQ) && (isNil(x.X) || isNil(x.Y)) {
+					return triOf(x.Op == token.NEQ)
+				}
+				l, ok1 := intVal(x.X, n)
+				rr, ok2 := intVal(x.Y, n)
+				if ok1 && ok2 {
+					switch x.Op {
+					case token.LSS:
+						return triOf(l < rr)
+					case token.LEQ:
+						return triOf(l <= rr)
+					case token.GTR:
+						return triOf(l > rr)
+					case token.GEQ:
+						return triOf(l >= rr)
+					case token.EQL:
+						return triOf(l == rr)
+					case token.NEQ:
+						return triOf(l != rr)
+					}
+				}
+			case *ast.CallExpr:
+				// a predicate of the path itself: a method without arguments whose body is one return
+				if len(x.Args) != 0 || depth > 2 {
+					return tUnknown
+				}
+				f := core.CalleeOf(info, x)
+				if f == nil || f.Pkg() != p.Types {
+					return tUnknown
+				}
+				for _, d := range core.AllFuncDecls(p) {
+					if info.Defs[d.Name] == f && d.Body != nil && len(d.Body.List) == 1 {
+						if rs, ok := d.Body.List[0].(*ast.ReturnStmt); ok && len(rs.Results) == 1 {
+							return eval(rs.Results[0], n, depth+1)
+						}
+					}
+				}
+			}
+			return tUnknown
+		})
+	}
+	for _, n := range []int{0, 4, 8, 12} {
+		switch eval(cond, n, 0) {
+		case tTrue:
+			set = append(set, n)
+		case tUnknown:
+			return nil, cond, fmt.Sprintf("`%s` cannot be evaluated for a path of %d values", c.Src(cond), n)
+		}
+	}
+	return set, cond, ""
+}
+
+// E3BoundsGuardAgreement: Bounds and FastBounds call the same paths empty.
+func E3BoundsGuardAgreement(c *core.Ctx, r *core.Report) {
+	r.Rule("E3.bounds-guard-agreement", "FastBounds contains Bounds for every path, the degenerate ones included. Both methods start with a guard that returns the zero Rect for a path without coordinates; evaluated for paths of 0, 1, 2 and 3 records (cmdLen taken from the table E2.cmdlen verifies, one-line predicates such as Empty inlined), the two guards return early for exactly the same lengths, and both do for the length 0 (the code below the guard reads p.d[1]). A guard that also fires for a single MoveTo in one of the two makes `M5 7` have the bounds (0,0)-(0,0) in one and (5,7)-(5,7) in the other: neither contains the other, and the bounds no longer move with the path under a translation")
+	p := c.MustPkg("")
+	sets := map[string][]int{}
+	names := []string{"Path.Bounds", "Path.FastBounds"}
+	for _, name := range names {
+		fd := core.MustFuncDecl(p, name)
+		r.Func("canvas." + name)
+		key := fmt.Sprintf("canvas.%s|guard for the path without coordinates is decidable and covers the empty path", name)
+		set, cond, why := emptyGuardSet(c, p, fd)
+		switch {
+		case why != "":
+			r.Fail("E3.bounds-guard-agreement", key, c.Pos(fd.Pos()), why)
+		case len(set) == 0 || set[0] != 0:
+			r.Fail("E3.bounds-guard-agreement", key, c.Pos(cond.Pos()), fmt.Sprintf("`%s` does not return early for the path without values, and the code below reads p.d[1]", c.Src(cond)))
+		default:
+			r.OK("E3.bounds-guard-agreement", key, c.Pos(cond.Pos()), fmt.Sprintf("%s: zero Rect for lengths %v", c.Src(cond), set))
+			sets[name] = set
+		}
+	}
+	if a, ok := sets[names[0]]; ok {
+		if b, ok := sets[names[1]]; ok {
+			key := "canvas.Path.Bounds|same guard as FastBounds"
+			if fmt.Sprint(a) == fmt.Sprint(b) {
+				r.OK("E3.bounds-guard-agreement", key, "", fmt.Sprint(a))
+			} else {
+				r.Fail("E3.bounds-guard-agreement", key, c.Pos(core.MustFuncDecl(p, names[0]).Pos()), fmt.Sprintf("Bounds returns the zero Rect for paths of %v values, FastBounds for %v: for the lengths in one list only the two boxes are unrelated", a, b))
+			}
+		}
+	}
+}
